@@ -13,13 +13,17 @@ def seeds():
                                             (m.get("needs_to_manifest") or "").replace("|", "/").replace("\n", " ")[:170],
                                             m.get("detected_by_check")))
     n = len(rows)
-    yes = sum(1 for p in glob.glob("seeded/*/meta.json") if json.load(open(p)).get("detected_by_check") == "yes")
-    aft = sum(1 for p in glob.glob("seeded/*/meta.json") if json.load(open(p)).get("detected_by_check") == "after-strengthening")
+    ds = [json.load(open(p)).get("detected_by_check") for p in glob.glob("seeded/*/meta.json")]
+    yes = sum(1 for d in ds if d == "yes")
+    aft = sum(1 for d in ds if d == "after-strengthening")
+    no = sum(1 for d in ds if d == "no")
+    other = n - yes - aft - no
     head = ("%d changes were written by independent sub-agents that saw only the property text and a scratch worktree; "
             "each was confirmed by the lead (demo passes on the pristine tree, fails with the change, 443 unit tests still pass). "
-            "%d were reported by the quick tier of the property's check as first built, %d after the check's generator was "
-            "strengthened (the miss is recorded in the entry), %d only by the check of the property that owns the changed file.\n\n"
-            % (n, yes, aft, n - yes - aft))
+            "%d were reported by the quick tier of the property's check as first built, %d after the check's generator or "
+            "specification was strengthened (the miss is recorded in the entry), %d only by the check of the property that "
+            "owns the changed file, %d are still missed (see the entry).\n\n"
+            % (n, yes, aft, other, no))
     return head + "| seed | change | needs | detected |\n|---|---|---|---|\n" + "\n".join(rows) + "\n"
 
 def findings():
